@@ -118,6 +118,15 @@ def exec_job(job):
     dt = job.get("dtype") or ["float", "float", "uint8", "int16", "int64", "uint16"][
         (len(str(job["x"])) + job["k"] + int(paired)) % 6]
     x, y = _stack(job["x"], dt), _stack(job["y"], dt)
+    # a common baseline: the t statistics (two-sample and paired) are invariant under adding the
+    # same constant to every subject's value, so the specification judges the small integers while
+    # the real call sees measurements riding on a large offset (where a numerically careless
+    # variance formula cancels catastrophically).  The offset is symmetric, so the stacks stay so.
+    base = job.get("baseline")
+    if base is None:
+        base = [0, 0, 0, 1e4, 1e6, 1e8][(len(str(job["y"])) + 3 * job["k"] + job["n"]) % 6]
+    if base and dt == "float":
+        x, y = x + base, y + base
     thr = job["tn"] / job["td"]
     rec = dict(fn=FN, n=n, nx=x.shape[2], ny=y.shape[2], x=[encode.mat_int(m) for m in job["x"]],
                y=[encode.mat_int(m) for m in job["y"]], tn=job["tn"], td=job["td"], tail=tail,
